@@ -12,7 +12,8 @@ From Coq Require Import ZArith List Reals.
 From Flocq Require Import Core BinarySingleNaN.
 From Perf Require Import Base.Bytes Base.B64 Base.FmtFixed Model.Scale Model.ScaleSpec
      Proofs.FmtFixed Proofs.B64Flocq Proofs.Scale Proofs.ScaleMore Proofs.ScaleError Proofs.ScaleRefuted Proofs.ScaleClass
-     Model.RowScale Proofs.RowScale.
+     Model.RowScale Proofs.RowScale Model.ScaleHist Proofs.ScaleHist.
+From Perf Require Model.Units.
 Import ListNotations.
 Local Open Scope Z_scope.
 
@@ -344,3 +345,61 @@ Proof.
   eexists. vm_compute. repeat split; try reflexivity. right; left; reflexivity.
 Qed.
 Print Assumptions C10_shared_scale_overflow_refuted.
+
+(** ** histories of calls (case kind 5).  Model/ScaleHist.v follows package
+    benchunit call by call with its mutable state explicit - tidyCache; the
+    threshold tables are written by their initialisers only, so they are the
+    constants of Model/Scale.v in every state.  [run c h] = the answers of the
+    calls [h] made one after the other from state [c]; [alone k] = the answer of
+    [k] when it is the only call the process ever makes. *)
+
+(** in a process that starts with an empty cache every call of every history
+    answers as if it were alone *)
+Theorem C10_history_independent : forall h, run [] h = map alone h.
+Proof. exact run_alone. Qed.
+Print Assumptions C10_history_independent.
+
+(** the same from every state the package can be in (every cache entry is the
+    slow path's result for its key - the invariant [step] preserves) *)
+Theorem C10_history_independent_from : forall c h, cache_inv c -> run c h = map alone h.
+Proof. intros c h H. exact (run_alone_inv h c H). Qed.
+Print Assumptions C10_history_independent_from.
+
+Theorem C10_cache_invariant : forall c k, cache_inv c -> cache_inv (fst (step c k)).
+Proof. intros c k H. exact (proj2 (step_spec c k H)). Qed.
+Print Assumptions C10_cache_invariant.
+
+(** ClassOf is a function of the unit alone: after any history (Tidy of the same
+    string included) it answers [class_of u], which is [narrow_class u] *)
+Theorem C10_class_of_after_any_history : forall h u,
+  run [] (h ++ [CClassOf u]) = map alone h ++ [AClass (narrow_class u)].
+Proof.
+  intros h u. rewrite (run_app_last h (CClassOf u) [] cache_inv_nil). cbn [alone].
+  rewrite class_of_narrow. reflexivity.
+Qed.
+Print Assumptions C10_class_of_after_any_history.
+
+(** CommonScale (hence Format, Scale) answers [common_scale vals cls] after any
+    history: every theorem above about [common_scale] holds for the first call
+    of a process as for any later one, in whatever order the classes are used *)
+Theorem C10_common_scale_after_any_history : forall h vals cls,
+  run [] (h ++ [CCommon vals cls]) = map alone h ++ [ACommon (common_scale vals cls)].
+Proof. intros h vals cls. exact (run_app_last h (CCommon vals cls) [] cache_inv_nil). Qed.
+Print Assumptions C10_common_scale_after_any_history.
+
+(** non-trivial instances: Tidy then ClassOf of "B/ns" (the slow path stores an
+    entry; ClassOf still says Binary); a Binary value below 1 as the first call,
+    four decimals; a state with an entry, as [C10_history_independent_from] assumes *)
+Example C10_history_examples :
+  run [] [CTidy (b64_of_Z 7) (bs "B/ns"); CClassOf (bs "B/ns"); CTidy (b64_of_Z 7) (bs "B/ns"); CClassOf (bs "MB/txns")]
+    = [ATidy (b64_of_Z 7) (bs "B/ns"); AClass Binary; ATidy (b64_of_Z 7) (bs "B/ns"); AClass Binary] /\
+  fst (step [] (CTidy (b64_of_Z 7) (bs "B/ns"))) = [(bs "B/ns", (bs "B/ns", b64_one))] /\
+  run [] [CCommon [b64_of_dec false 5 (-1)] Binary; CCommon [b64_of_Z 5] Decimal]
+    = [ACommon (Some (mkScaler 4 b64_one [])); ACommon (Some (mkScaler 3 b64_one []))] /\
+  scale (fun _ => []) (b64_of_dec false 5 (-1)) Binary = Some (bs "0.5000").
+Proof. vm_compute. repeat split; reflexivity. Qed.
+
+Example C10_cache_inv_example : cache_inv [(bs "B/ns", (bs "B/ns", b64_one))].
+Proof.
+  intros u e [H|[]]. injection H as <- <-. vm_compute. reflexivity.
+Qed.
